@@ -1,7 +1,7 @@
 From Coq Require Import ZArith List Bool Lia.
 From Arsenal Require Import Util.
 From Arsenal Require Import Budget BudgetProofs.
-From Arsenal Require VamDev VamBlockList Vam VamInv VamInvStep VamInvThm VamProps VamPropsOps VamShapeStep VamAcct VamAcctThm.
+From Arsenal Require VamDev VamBlockList Vam VamInv VamInvStep VamInvThm VamProps VamPropsOps VamShapeStep VamAcct VamAcctThm VamDefrag VamDefragThm VamDefragAcct VamDefragShape.
 Import ListNotations.
 Open Scope Z_scope.
 (* C11 — Configured limits and allocation-mode flags are always respected.
@@ -111,4 +111,20 @@ Theorem C11_allocator_dedicated_own_memory : forall c v s a,
   (forall lr l b, get_blist v lr = Some l -> List.In b (bl_blocks l) -> bk_mem b <> a_mem a).
 Proof. intros c v s a Hc R. apply (dedicated_own_memory c). apply reach_inv; assumption. Qed.
 Print Assumptions C11_allocator_dedicated_own_memory.
+(* limits along histories that contain defragmentation runs *)
+Theorem C11_allocator_pool_block_bounds_defrag : forall c v run lr l,
+  cfg_ok c -> VamDefragShape.reachDL c v run -> get_blist v lr = Some l ->
+  bl_min l <= zlen (bl_blocks l) /\ zlen (bl_blocks l) <= bl_max l.
+Proof. intros c v run lr l Hc. exact (VamDefragShape.pool_block_bounds_defrag c Hc v run lr l). Qed.
+Print Assumptions C11_allocator_pool_block_bounds_defrag.
+
+Theorem C11_allocator_heap_size_respected_defrag : forall c v run h,
+  cfg_acct c -> VamDefragAcct.reachDA c v run -> dev_bytes c v h <= heap_size c h.
+Proof. intros c v run h Ha. exact (VamDefragAcct.heap_size_respected_defrag c Ha v run h). Qed.
+Print Assumptions C11_allocator_heap_size_respected_defrag.
+
+Theorem C11_allocator_count_limit_respected_defrag : forall c v run,
+  cfg_acct c -> VamDefragAcct.reachDA c v run -> zlen (m_mems (v_m v)) <= c_maxcount c.
+Proof. intros c v run Ha. exact (VamDefragAcct.count_limit_respected_defrag c Ha v run). Qed.
+Print Assumptions C11_allocator_count_limit_respected_defrag.
 End Allocator.
